@@ -1,5 +1,6 @@
 import SleapVerif.Lemmas.TrackerHistory
 import SleapVerif.Lemmas.TrackFeatures
+import SleapVerif.Lemmas.TrackerHungarian
 /-!
 # C10 — well-separated animals keep their identity
 
@@ -19,8 +20,9 @@ has a track and that track's owner is the detection's animal.  Hence the same an
 track on every frame where it is detected, two animals never share a track over the whole history,
 and a newcomer's id was never held by anybody.  Proved outright for the greedy matcher (numpy's
 argsort contract `ArgsortSorted` is validated per call); for the Hungarian matcher under scipy's
-optimum-uniqueness contract `LsaPicksIdentity` (stated as `hungarian_picks_identity_full`, not
-proved, validated per recorded call by the harness).
+documented contract (`ExtOk` + `LsaOptimal`, trusted base, validated by brute force per recorded call):
+`hungarian_picks_identity` proves optimum uniqueness under dominance, so `identity_preserved_*_hungarian`
+carry no further hypothesis (the old `…_hungarian_partial` forms with `LsaPicksIdentity` are kept).
 
 Proof: invariant = C09 invariant + window purity (`FW.Pure` / `LQ.Pure`: every stored feature of
 track `t` belongs to `owner t`) + injectivity of `owner`; `window_purity_step_*` shows one call of
@@ -217,7 +219,7 @@ theorem identity_preserved_lq_greedy (cfg : Config R) (hfx : cfg.fx = Fixes.repa
   exact ⟨s', outs, owner, h1, h4, h7⟩
 
 /-- Hungarian matcher, fixed window: the same under scipy's optimum-uniqueness contract
-    (`_partial`: `LsaPicksIdentity` is a hypothesis, see `hungarian_picks_identity_full`) -/
+    (older form with `LsaPicksIdentity` as a hypothesis; see `identity_preserved_fw_hungarian`) -/
 theorem identity_preserved_fw_hungarian_partial (cfg : Config R) (hfx : cfg.fx = Fixes.repaired)
     (hh : cfg.matcher = .hungarian) (ext : Ext R) (hext : ExtOk ext) (hpick : LsaPicksIdentity ext)
     (score : φ → φ → R) (who : φ → Nat) (frames : List (List (φ × R)))
@@ -274,22 +276,37 @@ theorem identity_every_detection_tracked {who : φ → Nat} {owner : Nat → Nat
     {cur : List (φ × R)} {ids : List (Option Nat)} (h : FrameOwned who owner m cur ids) :
     ∀ i, i < cur.length → ∃ t, ids[i]? = some (some t) := h.2.1
 
-/-- total cost of an assignment (finite entries only) -/
-def sumCost (M : List (List (Option R))) (ms : List (Nat × Nat)) : R :=
-  (ms.map fun p => ((M.getD p.1 []).getD p.2 none).getD 0).sum
+/-- **hungarian_picks_identity** (optimum uniqueness under row + column dominance): a solver with
+    scipy's contract — `ExtOk` (one-to-one, in bounds, full size `min n k`) and `LsaOptimal` (minimum
+    total cost among such assignments on a finite matrix) — returns exactly the identity edges.
+    Termwise argument along the saturated side (rows if every detection is known, columns if a
+    newcomer is present); no exchange argument. -/
+theorem hungarian_picks_identity {ext : Ext R} (hext : ExtOk ext) (hopt : LsaOptimal ext) :
+    LsaPicksIdentity ext := hungarian_picks_identity' hext hopt
 
-/-- scipy's documented contract: a full-size one-to-one assignment of minimum total cost -/
-def LsaOptimal (ext : Ext R) : Prop :=
-  ∀ (M : List (List (Option R))) (k : Nat), (∀ row ∈ M, row.length = k) →
-    (∀ row ∈ M, ∀ o ∈ row, o ≠ none) →
-    ∀ ms', MatchValid M.length k ms' → ms'.length = min M.length k →
-      sumCost M (ext.lsa M) ≤ sumCost M ms'
+/-- **identity preserved, fixed window, Hungarian matcher, every history of the class** — no
+    hypothesis beyond the solver contract (`ExtOk`, `LsaOptimal`: trusted base, validated by brute
+    force on every recorded scipy call) -/
+theorem identity_preserved_fw_hungarian (cfg : Config R) (hfx : cfg.fx = Fixes.repaired)
+    (hh : cfg.matcher = .hungarian) (ext : Ext R) (hext : ExtOk ext) (hopt : LsaOptimal ext)
+    (score : φ → φ → R) (who : φ → Nat) (frames : List (List (φ × R)))
+    (hcl : FW.InClass cfg ext score who FW.empty frames) :
+    ∃ s' outs owner, run (FW.step cfg ext score) FW.empty frames = .ok (s', outs) ∧
+      InjOn owner s'.tracks.length ∧
+      List.Forall₂ (FrameOwned who owner s'.tracks.length) frames outs :=
+  identity_preserved_fw_hungarian_partial cfg hfx hh ext hext (hungarian_picks_identity hext hopt)
+    score who frames hcl
 
-/-- NOT PROVED (kept visible): optimum uniqueness under row+column dominance — an optimal solver
-    returns exactly the identity edges.  This is what the hypothesis `LsaPicksIdentity` of the
-    `…_hungarian…` theorems stands for; the harness checks it on every recorded scipy call. -/
-def hungarian_picks_identity_full (R : Type) [Field R] [LinearOrder R] [IsStrictOrderedRing R] : Prop :=
-  ∀ ext : Ext R, ExtOk ext → LsaOptimal ext → LsaPicksIdentity ext
+/-- **identity preserved, local queues, Hungarian matcher, every history of the class** -/
+theorem identity_preserved_lq_hungarian (cfg : Config R) (hfx : cfg.fx = Fixes.repaired)
+    (hw : 0 < cfg.window) (hh : cfg.matcher = .hungarian) (ext : Ext R) (hext : ExtOk ext)
+    (hopt : LsaOptimal ext) (score : φ → φ → R) (who : φ → Nat)
+    (frames : List (List (φ × R))) (hcl : LQ.InClass cfg ext score who LQ.empty frames) :
+    ∃ s' outs owner, run (LQ.step cfg ext score) LQ.empty frames = .ok (s', outs) ∧
+      InjOn owner s'.tracks.length ∧
+      List.Forall₂ (FrameOwned who owner s'.tracks.length) frames outs :=
+  identity_preserved_lq_hungarian_partial cfg hfx hw hh ext hext (hungarian_picks_identity hext hopt)
+    score who frames hcl
 
 end histories
 
